@@ -74,6 +74,9 @@ mod value;
 pub use api::{Builder, Truth};
 mod api;
 
+#[cfg(truth_verif)]
+pub mod verif_hooks;
+
 pub trait VeclikeIterator: ExactSizeIterator + DoubleEndedIterator { }
 impl<Xs: ExactSizeIterator + DoubleEndedIterator> VeclikeIterator for Xs { }
 
